@@ -91,7 +91,7 @@ def _cond_true(arg: str, tags: dict) -> bool | None:
 STATS: collections.Counter = collections.Counter()
 
 
-def oracle_case(case: dict) -> Failure | None:  # noqa: C901
+def oracle_case(case: dict) -> Failure | list[Failure] | None:  # noqa: C901
     """case = {"pcode", "ticks", "plan": [[["tag", name, v] | ["cancel", j] | ["force", j]] per tick]}.
     `j` selects the j-th Watch/Alarm of the method (request sent before the tick)."""
     from harness.engine_run import EngineRun
@@ -126,6 +126,7 @@ def oracle_case(case: dict) -> Failure | None:  # noqa: C901
         st = {w["id"]: dict(starts=0, true_since=False, forced_seen=False, cancelled_at=None, prev_states=0,
                             completions=0, first_reg=None, rearm_ticks=[]) for w in conds}
         block_ended_at: dict[str, int] = {}
+        known_hits: list[Failure] = []
         prev = {n["id"]: n for n in nodes0}
         prev_mark = ""
         ri = lambda: run.engine.interpreter.runtimeinfo  # noqa: E731
@@ -270,10 +271,14 @@ def oracle_case(case: dict) -> Failure | None:  # noqa: C901
                         race = any(te - 2 <= r <= te + 1 for r in s["rearm_ticks"])
                         key = "registered-again-around-block-end" if race else "watch-or-alarm-active-after-block-ended"
                         STATS[key] += 1
-                        return Failure(key, case,
-                                       f"tick {t}: {w['name']}: {w['arg']} (line {w['line']}) {what} although block {b['arg']} "
-                                       f"around it ended at tick {te} (generators registered for it at ticks "
-                                       f"{s['rearm_ticks']})")
+                        f = Failure(key, case,
+                                    f"tick {t}: {w['name']}: {w['arg']} (line {w['line']}) {what} although block {b['arg']} "
+                                    f"around it ended at tick {te} (generators registered for it at ticks {s['rearm_ticks']})")
+                        if not race:
+                            return f
+                        if not known_hits:
+                            known_hits.append(f)     # recorded finding; the other clauses are still judged
+                        break
                 # -- (c') / (d): no instruction of the body starts after cancel / after the block ended
                 for d in body[wid]:
                     dn, dp = now[d["id"]], prev[d["id"]]
@@ -309,7 +314,7 @@ def oracle_case(case: dict) -> Failure | None:  # noqa: C901
                         return Failure("watch-body-mark-set-twice", case,
                                        f"Mark {d['arg']} (line {d['line']}) of Watch: {w['arg']} appears "
                                        f"{final.count(d['arg'])}x in the Mark tag")
-        return None
+        return known_hits or None
     finally:
         run.close()
 
@@ -319,8 +324,8 @@ def gen_oracle_cases(ctx: Check, n: int) -> list[dict]:
     rng = ctx.rng
     out = []
     for i in range(n):
-        pcode, stats = gen_c04_program(rng, max_lines=12, macros=(i % 6 == 5), alarm_nesting=(i % 4 == 3),
-                                       malformed=(i % 7 == 6), bad_conditions=(i % 7 == 6))
+        pcode, stats = gen_c04_program(rng, nested=(i % 5 == 4), max_lines=12, macros=(i % 6 == 5),
+                                       alarm_nesting=(i % 4 == 3), malformed=(i % 7 == 6), bad_conditions=(i % 7 == 6))
         if not pcode.startswith("Base"):
             pcode = "Base: s\n" + pcode
         ticks = rng.randrange(30, 70)
@@ -344,6 +349,19 @@ def gen_oracle_cases(ctx: Check, n: int) -> list[dict]:
 
 
 HAND_CASES = [
+    # nested blocks, a Watch / Alarm registered in the OUTER block, `End blocks` from the inner block (main flow / a Watch)
+    {"pcode": "Block: B1\n    Watch: T0 > 0\n        Mark: x\n        Wait: 1s\n        Mark: y\n    Block: B2\n"
+              "        Wait: 1s\n        End blocks\nMark: after\nWait: 5s\n", "ticks": 60, "vary": ("T0", 1, range(2, 40)), "pre": []},
+    {"pcode": "Block: B1\n    Alarm: T1 > 0\n        Mark: x\n    Watch: T2 > 0\n        Mark: z\n    Block: B2\n"
+              "        Watch: T0 > 0\n            End blocks\n        Wait: 5s\nMark: after\nWait: 5s\n", "ticks": 60,
+     "vary": ("T0", 1, range(4, 30)), "pre": [["tag", "T1", 1]], "post": (8, [["tag", "T2", 1]])},
+    {"pcode": "Block: B1\n    Watch: T0 > 0\n        Mark: x\n    Block: B2\n        Watch: T0 > 0\n            Mark: y\n"
+              "        Block: B3\n            Watch: T0 > 0\n                Mark: z\n            Wait: 0.5s\n"
+              "            End blocks\nMark: after\nWait: 5s\n", "ticks": 60, "vary": ("T0", 1, range(2, 40)), "pre": []},
+    # a Watch / Alarm declared inside a Watch body: two levels below the block that is ended
+    {"pcode": "Block: B\n    Watch: T2 > 0\n        Watch: T0 > 0\n            Mark: x\n        Alarm: T0 > 0\n"
+              "            Mark: z\n        Wait: 3s\n    Wait: 1s\n    End block\nMark: after\nWait: 5s\n", "ticks": 60,
+     "vary": ("T0", 1, range(6, 40)), "pre": [["tag", "T2", 1]]},
     # a second Watch ends the block while the first one waits / runs, at every offset
     {"pcode": "Base: s\nBlock: B\n    Watch: T0 > 0\n        End block\n    2.0 Watch: T1 > 0\n        Mark: x\n"
               "        Mark: y\n    Wait: 5s\nMark: after\n", "ticks": 60, "vary": ("T0", 1, range(14, 30)), "pre": [["tag", "T1", 1]]},
@@ -362,6 +380,8 @@ def hand_cases() -> list[dict]:
             plan = [[] for _ in range(h["ticks"])]
             plan[1] = list(h["pre"])
             plan[t0] = plan[t0] + [["tag", name, v]]
+            if "post" in h:
+                plan[t0 + h["post"][0]] = plan[t0 + h["post"][0]] + h["post"][1]
             out.append({"pcode": h["pcode"], "ticks": h["ticks"], "plan": plan})
     # an Alarm whose condition stays true runs again and again (re-armed after each completed run)
     out.append({"pcode": "Base: s\nAlarm: T0 > 0\n    Mark: a\nMark: c\n", "ticks": 40, "plan": [[["tag", "T0", 1]]],
@@ -453,7 +473,7 @@ def run(ctx: Check) -> int:
                 "Engine.cancel_instruction/force_instruction.")
     cases = [json.loads(p.read_text()) for p in sorted((Path(__file__).parent.parent / "corpus" / "C04").glob("m3-*.json"))]
     for i in range(ctx.n(120, 3000)):
-        pcode, stats = gen_c04_program(rng, macros=(i % 3 == 2))
+        pcode, stats = gen_c04_program(rng, nested=(i % 4 == 3), macros=(i % 3 == 2))
         cases.append({"pcode": pcode, "ops": gen_c04_schedule(rng, rng.randrange(15, 45))})
         for k, v in stats.items():
             ctx.count("instr:" + k, v)
@@ -488,9 +508,13 @@ def replay(obj) -> int:
     c = obj.get("case", {})
     if "plan" in c:
         f = oracle_case(c)
+        fs = f if isinstance(f, list) else ([f] if f else [])
         print(c["pcode"])
-        print("oracle:", f)
-        return 1 if f else 0
+        for x in fs:
+            print("oracle:", x.key, "|", x.detail)
+        if not fs:
+            print("oracle: no failure")
+        return 1 if fs else 0
     if "ops" in c:
         from harness.interp_c04 import run_case
         lines, outs = run_case(c)
